@@ -9,6 +9,7 @@ Nodes are the raw dicts of clang's JSON dump, annotated in place with
 import hashlib
 import json
 import os
+import re
 import subprocess
 import sys
 import time
@@ -1097,3 +1098,70 @@ def walk_deep(node, unit, depth=2, _seen=None):
             _seen.add(id(b))
             for y in walk_deep(b, unit, depth - 1, _seen):
                 yield y
+
+
+def renorm(s):
+    """Re-normalise a canonical expression string after textual substitution: operands of the
+    commutative operators are sorted again, redundant outer parentheses dropped."""
+    s = s.strip()
+
+    def split_top(body):
+        parts, ops, depth, cur, i = [], [], 0, '', 0
+        while i < len(body):
+            ch = body[i]
+            if ch in '([':
+                depth += 1
+            elif ch in ')]':
+                depth -= 1
+            if depth == 0 and ch == ' ':
+                m = re.match(r' (\+|\*|-|/|%|&&|\|\||&|\||\^|<<|>>|<=|>=|==|!=|<|>|\?|:) ', body[i:])
+                if m:
+                    parts.append(cur)
+                    ops.append(m.group(1))
+                    cur = ''
+                    i += m.end()
+                    continue
+            cur += ch
+            i += 1
+        parts.append(cur)
+        return parts, ops
+
+    def outer_parens(t):
+        if not (t.startswith('(') and t.endswith(')')):
+            return False
+        depth = 0
+        for i, ch in enumerate(t):
+            if ch == '(':
+                depth += 1
+            elif ch == ')':
+                depth -= 1
+                if depth == 0 and i != len(t) - 1:
+                    return False
+        return True
+
+    def norm(t):
+        t = t.strip()
+        while outer_parens(t):
+            inner = t[1:-1]
+            parts, ops = split_top(inner)
+            if not ops:
+                t = inner.strip()
+                continue
+            parts = [norm(p) for p in parts]
+            if len(set(ops)) == 1 and ops[0] in ('+', '*', '&', '|', '^'):
+                # flatten nested same-operator operands
+                flat = []
+                for p in parts:
+                    if outer_parens(p):
+                        ip, io = split_top(p[1:-1])
+                        if io and set(io) == {ops[0]}:
+                            flat.extend(x.strip() for x in ip)
+                            continue
+                    flat.append(p)
+                return '(' + (' %s ' % ops[0]).join(sorted(flat)) + ')'
+            out = parts[0]
+            for o, p in zip(ops, parts[1:]):
+                out += ' %s %s' % (o, p)
+            return '(' + out + ')'
+        return t
+    return norm(s)
